@@ -201,6 +201,10 @@ pub fn run(ctx: &Ctx) -> Report {
         rep.acc.evals += 1; rep.acc.count("wrapped_device_cases", 1);
         if let Err((sig, d)) = wrapped(*r, k & 1, k & 2 != 0, k & 4 != 0) { rep.acc.violation(sig, format!("w:{ri}:{k}"), d); }
     } }
+    for (ri, r) in rs.iter().enumerate() { for k in 0..6u64 {
+        rep.acc.evals += 1; rep.acc.count("other_source_cases", 1);
+        if let Err((sig, d)) = with_pinger(*r, k % 2 == 0, [1, 3, 7][(k / 2) as usize]) { rep.acc.violation(sig, format!("p:{ri}:{k}"), d); }
+    } }
     for long in [30u32, 200] { for short in [1u32, 3, 8] { for before in [0u32, 1, 5, 12] {
         rep.acc.evals += 1; rep.acc.count("simulator_reset_cases", 1);
         if let Err((sig, d)) = reset_in_simulator(long, short, before) { rep.acc.violation(sig, format!("r:{long}:{short}:{before}"), d); }
@@ -252,6 +256,39 @@ fn poll_in_sim<D: ExternalDevice + Send + Sync + 'static>(dev: D, steps: usize) 
     sim.device_handler.add_device(Shim { inner: dev, log: log.clone() }, &[]).ok().unwrap();
     for _ in 0..steps { let _ = sim.step_in(); }
     let v = log.lock().unwrap_or_else(|e| e.into_inner()).clone(); v
+}
+
+/// Another interrupt source on the same handler: it raises an *external* interrupt (the step returns an error) at every `period`-th poll.
+/// Attached before or after the timer; the timer must be polled once per instruction cycle regardless, and its intervals must stay in range.
+struct Pinger { n: u64, period: u64 }
+impl ExternalDevice for Pinger {
+    fn io_read(&mut self, _: u16, _: bool) -> Option<u16> { None }
+    fn io_write(&mut self, _: u16, _: u16) -> bool { false }
+    fn io_reset(&mut self) {}
+    fn poll_interrupt(&mut self) -> Option<lc3_ensemble::sim::device::Interrupt> { self.n += 1; if self.n % self.period == 0 { Some(lc3_ensemble::sim::device::Interrupt::external(std::io::Error::other("ping"))) } else { None } }
+}
+fn with_pinger(r: Range, pinger_first: bool, period: u64) -> Result<(), (String, String)> {
+    use lc3_ensemble::sim::mem::MachineInitStrategy;
+    use lc3_ensemble::sim::{SimFlags, Simulator};
+    let what = format!("range {r:?} next to a device raising an external interrupt every {period} polls (attached {} the timer)", if pinger_first { "before" } else { "after" });
+    let res = catch(|| {
+        let mut sim = Simulator::new(SimFlags { machine_init: MachineInitStrategy::Known { value: 0 }, ..Default::default() });
+        sim.mem[0x0181].set(0x1F00); sim.mem[0x1F00].set(0x8000);
+        for a in 0x3000..0x3200u16 { sim.mem[a].set(0x1021); }
+        let log = std::sync::Arc::new(std::sync::Mutex::new(vec![]));
+        let mut t = r.make(Some(3)); t.enabled = true;
+        if pinger_first { sim.device_handler.add_device(Pinger { n: 0, period }, &[]).ok().unwrap(); }
+        sim.device_handler.add_device(Probe { inner: t, log: log.clone() }, &[]).ok().unwrap();
+        if !pinger_first { sim.device_handler.add_device(Pinger { n: 0, period }, &[]).ok().unwrap(); }
+        let mut steps = 0usize;
+        for _ in 0..150 { let _ = sim.step_in(); steps += 1; }
+        let v = log.lock().unwrap_or_else(|e| e.into_inner()).clone(); (v, steps)
+    });
+    match res {
+        Err(p) => Err((format!("panic:{}", panic_site(&p)), p)),
+        Ok((fires, steps)) => { if fires.len() != steps { return Err(("poll-count:other-source".into(), format!("{what}: the timer was polled {} times in {steps} instruction cycles", fires.len()))); }
+            let tr = Trace { enabled: vec![true; fires.len()], fires, samples_asked: vec![], resets: vec![] }; judge(r, &tr, &what) }
+    }
 }
 
 struct Probe { inner: TimerDevice, log: std::sync::Arc<std::sync::Mutex<Vec<bool>>> }
@@ -332,6 +369,7 @@ pub fn replay(case: &str) -> Option<String> {
         "g" => { let k: u64 = p.get(1)?.parse().ok()?; let big = big_ranges(); let r = *big.get((k / 18) as usize)?; let (c0, c1, ev) = ((k / 6 % 3) as u32, (k / 2 % 3) as u32, k % 2 == 1);
             let polls = 4 * r.max() + 20; let events = if ev { vec![(r.max() / 2, 3u8)] } else { vec![] };
             match run_hooked(r, &Plan { choices: vec![c0, c1], events, path: 0 }, polls) { Ok(tr) => judge(r, &tr, "big interval").err().map(|x| format!("[{}] {}", x.0, x.1.chars().take(400).collect::<String>())), Err(p) => Some(p) } }
+        "p" => { let k: u64 = p.get(2)?.parse().ok()?; with_pinger(rs[p.get(1)?.parse::<usize>().ok()?], k % 2 == 0, [1, 3, 7][(k / 2) as usize]).err().map(|x| format!("[{}] {}", x.0, x.1)) }
         "w" => { let k: u8 = p.get(2)?.parse().ok()?; wrapped(rs[p.get(1)?.parse::<usize>().ok()?], k & 1, k & 2 != 0, k & 4 != 0).err().map(|x| format!("[{}] {}", x.0, x.1)) }
         "r" => reset_in_simulator(p.get(1)?.parse().ok()?, p.get(2)?.parse().ok()?, p.get(3)?.parse().ok()?).err().map(|x| format!("[{}] {}", x.0, x.1)),
         _ => None,
